@@ -93,15 +93,19 @@ def try_shrink(mod, case, res, budget=120):
     keys = {v["key"] for v in res.violations}
     runs = 0
     improved = True
-    while improved and runs < budget:
+    t_end = time.time() + 60
+    while improved and runs < budget and time.time() < t_end:
         improved = False
-        try:
-            cands = list(mod.shrink(case))
-        except Exception:      # pseudo-cases of one-off passes have nothing to shrink
-            break
-        for cand in cands:
+        cands = mod.shrink(case)          # consumed lazily: a long case has very many candidates
+        while True:
+            try:
+                cand = next(cands)
+            except StopIteration:
+                break
+            except Exception:      # pseudo-cases of one-off passes have nothing to shrink
+                return case, res
             runs += 1
-            if runs > budget:
+            if runs > budget or time.time() > t_end:
                 break
             try:
                 r2 = mod.check(cand)
